@@ -883,7 +883,8 @@ def ctor_domain_search(cls_name):
                 return {"class": cls_name, "parameters": args,
                         "failure": "%s%r was %s; the documented domain says %s" % (cls_name, tuple(args), "accepted" if ok else "rejected",
                                                                                 "inside" if inside else "outside")}
-            if ok:
+            if ok and not (cls_name in ("DistGeometric", "DistNegBinomial") and args[-1] == 0.0):
+                # (p = 0 of the geometric family is the listed known finding of draw(): not this probe's business)
                 try:
                     d.draw()
                 except Exception as e:
